@@ -217,10 +217,14 @@ CARRIERS = {
     "neg": lambda v, i: v - 2,                            # only for patterns over 0..1: hash(-1) == hash(-2)
     "bool": lambda v, i: bool(v),                         # only for patterns over 0..1
     "mixed": lambda v, i: (v, float(v), Fraction(v))[i % 3],
+    "halves": lambda v, i: v,                             # (see carry) ints at the two ends, k - 1/2 in between
 }
 
 
 def carry(pat, car):
+    if car == "halves":
+        m = max(pat) if pat else 0
+        return tuple(v if v in (0, m) else v - 0.5 for v in pat)
     if car == "negcollide":
         m = max(pat) if pat else 0
         return tuple(CARRIERS[car](m - v, i) for i, v in enumerate(pat))
@@ -228,7 +232,7 @@ def carry(pat, car):
 
 
 def carriers_for(pat):
-    out = ["int", "floateq", "float", "str", "tuple", "frac", "list", "collide", "negcollide", "mixed"]
+    out = ["int", "floateq", "float", "str", "tuple", "frac", "list", "collide", "negcollide", "mixed", "halves"]
     if not pat or max(pat) <= 1:
         out += ["neg", "bool"]
     return out
@@ -270,7 +274,7 @@ def cache_fn():
 def std_call(ctx, pat, car, variant, want, case):
     vals = carry(pat, car)
     st, got = util.call(Perm.to_standard, container(vals, car, variant))
-    if st != "ok" or tuple(got) != tuple(want) or not isinstance(got, Perm):
+    if st != "ok" or tuple(got) != tuple(want) or not isinstance(got, Perm) or not all(type(x) is int for x in got):
         ctx.violation(dict(case, kind="std", pat=list(pat), carrier=car, variant=variant), "ReplyIsStd", list(want),
                       {"raised": got} if st != "ok" else list(got))
         return None
@@ -414,7 +418,7 @@ def judge_std_history(ctx, rows, res):
             if a["name"] == "Standardise":
                 before = cf.cache_info().hits if cf else None
                 st, got = util.call(Perm.to_standard, container(carry(pat, car), car, len(hist)))
-                if st != "ok" or tuple(got) != tuple(e["reply"]) or not isinstance(got, Perm):
+                if st != "ok" or tuple(got) != tuple(e["reply"]) or not isinstance(got, Perm) or not all(type(x) is int for x in got):
                     ctx.violation(case, "ReplyNeverDependsOnMemo", e["reply"], {"raised": got} if st != "ok" else list(got))
                     break
                 if cf and (cf.cache_info().hits > before) != a["hit"]:
@@ -754,7 +758,8 @@ def observe(ev):
             got = f(iterable=arg)
         else:
             got = f(arg)
-        ev["res"] = list(got)
+        # the entries of a permutation are integers (a float equal to one is not: str() and inverse() would differ)
+        ev["res"] = [x if type(x) is int else -1 for x in got]
     elif op == "Valid":
         accepted, exc, _ = valid_call(tuple(ev["s"]), ev.get("variant", 0))
         ev.update(accepted=accepted, exc=exc)
